@@ -24,6 +24,7 @@ type TableCtx struct {
 	Tag    []string // tag alphabet
 	Pfx    []Pfx    // prefix universe
 	HotPfx int      // index of a prefix shared by many objects
+	NetIP  bool     // the "ln" index is a NetIPPrefixIndex (IPv4 netip.Prefix) instead of an LPMIndex
 }
 
 // taskCtx is the harness' per-task state, used for attribution by the oracles.
@@ -349,10 +350,6 @@ func (w *World) newTable(t *simcore.Task) bool {
 			kinds = append(kinds, k)
 		}
 	}
-	var secondary []statedb.Indexer[*Obj]
-	for _, k := range kinds {
-		secondary = append(secondary, indexerFor(k))
-	}
 	alpha := c.Choose(numAlpha)
 	n := 6 + c.Choose(10)
 	if alpha == AlphaFanout {
@@ -367,6 +364,12 @@ func (w *World) newTable(t *simcore.Task) bool {
 		Pfx: pfxUniverse(pick),
 	}
 	tc.HotPfx = c.Choose(len(tc.Pfx))
+	// derived from a value already drawn, so that the choice stream of earlier versions stays aligned
+	tc.NetIP = tc.HotPfx%2 == 1
+	var secondary []statedb.Indexer[*Obj]
+	for _, k := range kinds {
+		secondary = append(secondary, indexerFor(k, tc.NetIP))
+	}
 	tc.M.Chain = []*TableState{{Objs: map[string]MObj{}, Dead: map[string]MDel{}, CommitID: -1}}
 	var err error
 	t.Op = "NewTable"
